@@ -506,6 +506,11 @@ def _fact_tables(fi: FuncInfo) -> Dict[str, ast.AST]:
     """locals that are used as a factorial table: a list that is appended to with a product involving its own entries."""
     out: Dict[str, ast.AST] = {}
     for node in walk_no_nested(fi.node):
+        if isinstance(node, ast.Call) and isinstance(node.func, ast.Attribute) and node.func.attr == "extend" and isinstance(node.func.value, ast.Name) and len(node.args) == 1 \
+                and isinstance(node.args[0], (ast.ListComp, ast.GeneratorExp)):
+            t = node.func.value.id
+            if any(isinstance(x, ast.Subscript) and unparse(x.value) == t for x in ast.walk(node.args[0].elt)):
+                out[t] = node
         if isinstance(node, ast.Call) and isinstance(node.func, ast.Attribute) and node.func.attr == "append" and isinstance(node.func.value, ast.Name) and len(node.args) == 1:
             t = node.func.value.id
             if isinstance(node.args[0], ast.BinOp) and isinstance(node.args[0].op, ast.Mult) and any(isinstance(x, ast.Subscript) and unparse(x.value) == t for x in ast.walk(node.args[0])):
@@ -524,6 +529,25 @@ def rule_f1(ctx: Ctx) -> None:
         if not tables:
             raise AnalysisError(f"{fi.where}: no factorial table found")
         for t in tables:
+            # a list comprehension is evaluated completely before extend() sees it: T[-1] is the same old entry for every
+            # new element, so more than one new entry cannot be a running product
+            for node in walk_no_nested(fi.node):
+                if isinstance(node, ast.Call) and isinstance(node.func, ast.Attribute) and node.func.attr == "extend" and unparse(node.func.value) == t and len(node.args) == 1:
+                    a0 = node.args[0]
+                    reads_own = any(isinstance(x, ast.Subscript) and unparse(x.value) == t for x in ast.walk(a0.elt)) if isinstance(a0, (ast.ListComp, ast.GeneratorExp)) else False
+                    if isinstance(a0, ast.ListComp) and reads_own:
+                        g = a0.generators[0]
+                        many = len(a0.generators) == 1 and not g.ifs and isinstance(g.iter, ast.Call) and isinstance(g.iter.func, ast.Name) and g.iter.func.id == "range" \
+                            and len(g.iter.args) == 2 and unparse(g.iter.args[0]) == f"len({t})" and isinstance(g.iter.args[1], ast.Name)
+                        if not many:
+                            raise AnalysisError(f"{fi.where}: `{unparse(node)[:60]}`: how many entries the comprehension adds is not recognised")
+                        seen += 1
+                        ctx.violation("C09-F1", fi, node, f"`{unparse(node)[:80]}` builds all new entries from the table as it was before the call (a list comprehension is evaluated before extend() runs): when more than one entry is missing the new entries are not factorials")
+                        break
+                    if isinstance(a0, ast.GeneratorExp) and reads_own:
+                        raise AnalysisError(f"{fi.where}: `{unparse(node)[:60]}` grows the table lazily through a generator; not analysed")
+            if any(f.rule == 'C09-F1' and f.where == fi.where for f in ctx.findings):
+                continue
             # initial value: a display of factorials (or a shared class-level display)
             inits = [n for n in walk_no_nested(fi.node) if isinstance(n, (ast.Assign, ast.AnnAssign)) and n.value is not None
                      and any(isinstance(x, ast.Name) and x.id == t for x in (n.targets if isinstance(n, ast.Assign) else [n.target]))]
